@@ -336,7 +336,8 @@ class ElasticsearchQueryBuilder(TreeVisitor):
         yield enode
 
     def visit_not(self, node, context):
-        children = self.simplify_if_same(node.children, node)
+        # no simplify_if_same here: Not(Not(x)) can't be simplified as Not(x)
+        children = node.children
         child_context = dict(context, parents=context.get("parents", ()) + (node,))
         self._propagate_name(node, child_context)
         items = [
